@@ -120,6 +120,84 @@ def sliceL {α : Type} (l : List α) (lo hi : Int) : List α :=
   let norm := fun (x : Int) => if x < 0 then (if x + n < 0 then 0 else x + n) else (if x > n then n else x)
   (l.drop (norm lo).toNat).take ((norm hi).toNat - (norm lo).toNat)
 
+/-! ### the taproot script tree -/
+
+/-- a Script, or a (nested) list of them: the empty list, lists of one and two elements, and longer lists (which the code refuses
+whatever they contain) -/
+inductive PyTree where
+  | leaf (s : List PyTok)
+  | nil
+  | one (t : PyTree)
+  | two (l r : PyTree)
+  | many
+deriving Inhabited
+
+/-- the `scripts` argument of `calculate_tweak`: `None`, a raw merkle root, or a tree -/
+inductive PyScripts where
+  | none
+  | root (b : Bytes)
+  | tree (t : PyTree)
+deriving Inhabited
+
+def treeDepth : Option PyTree → Nat
+  | none => 0
+  | some t => go t
+where go : PyTree → Nat
+  | .one t => go t + 1
+  | .two l r => max (go l) (go r) + 1
+  | _ => 0
+
+/-- `not scripts`: `None` and the empty list are falsy, a Script object and a non-empty list are truthy -/
+def treeFalsy : Option PyTree → Bool
+  | none => true
+  | some .nil => true
+  | _ => false
+
+def treeIsList : Option PyTree → Bool
+  | some (.leaf _) => false
+  | none => false
+  | _ => true
+
+/-- `len(scripts)`; every length ≥ 3 behaves alike (reported as 3); a Script object or `None` has no `len` -/
+def treeLen : Option PyTree → Except PyErr Int
+  | some .nil => .ok 0
+  | some (.one _) => .ok 1
+  | some (.two _ _) => .ok 2
+  | some .many => .ok 3
+  | _ => .error .typeError
+
+/-- `scripts[i]` (negative indices count from the end); the children of a list of three or more are not modelled -/
+def treeChild (t : Option PyTree) (i : Int) : Except PyErr (Option PyTree) :=
+  match t with
+  | some (.one a) => if i = 0 ∨ i = -1 then .ok (some a) else .error .indexError
+  | some (.two a b) => if i = 0 ∨ i = -2 then .ok (some a) else if i = 1 ∨ i = -1 then .ok (some b) else .error .indexError
+  | some .nil => .error .indexError
+  | some .many => .error .unsupported
+  | _ => .error .typeError
+
+/-- the Script behind `tapleaf_tagged_hash(scripts)` (`AttributeError` for a list or `None`) -/
+def treeLeafToks : Option PyTree → Except PyErr (List PyTok)
+  | some (.leaf s) => .ok s
+  | _ => .error .other
+
+def scriptsFalsy : PyScripts → Bool
+  | .none => true
+  | .root b => b.isEmpty
+  | .tree t => treeFalsy (some t)
+
+def scriptsIsBytes : PyScripts → Bool
+  | .root _ => true
+  | _ => false
+
+/-- `key_x + scripts` for a bytes value (`TypeError` otherwise) -/
+def scriptsBytes : PyScripts → Except PyErr Bytes
+  | .root b => .ok b
+  | _ => .error .typeError
+
+def scriptsTree : PyScripts → Option PyTree
+  | .tree t => some t
+  | _ => none
+
 /-! ### hex strings of 64+ digits -/
 
 /-- big-endian bytes of a natural number, minimal length (empty for 0) -/
